@@ -7,6 +7,10 @@ import subprocess
 import sys
 
 SCRIPTS = [
+    # a write-only statement next to ordinary ones (target-only tag), two roles for one table
+    ("insert into t values (1, 2); insert into u select a from s; select * from u", None),
+    # printed names that differ only in letter case (quoted identifiers keep their case): ties under a case-insensitive key
+    ('insert into "Tgt" select a from "Src"; insert into tgt select a from src; insert into mid select a from "Src"; insert into "Mid" select a from mid; insert into o select a from "Mid"; insert into o2 select a from mid', None),
     ("insert into t2 select a, b from t1; insert into t3 select a from t2", None),
     ("insert into tab1 select * from tab1 x join tab2 y on x.id = y.id; select * from tab1", None),
     ("insert into t select x.a + y.b as c from (select a from s) x join (select a as b from s where 1=1) y on x.a = y.b", None),
@@ -98,7 +102,7 @@ def main():
             fails.append({"clause": "same_answers_under_every_hash_seed", "sql": sql, "metadata": meta, "dumps_by_seeds": {str(v): k[:300] for k, v in outs.items()}})
     # accessor order / repetition inside one process
     names = ("source", "target", "intermediate", "columns", "dag", "cdag", "str")
-    for sql, meta in SCRIPTS[:4]:
+    for sql, meta in SCRIPTS[:6]:
         ref = dump(sql, meta)
         for order in list(itertools.permutations(("source", "target", "intermediate"))) + [("str", "source", "target"), ("target", "target", "source", "source", "str"), ("cdag", "columns", "dag", "str", "intermediate"), ("columns", "columns")]:
             evals += 1
